@@ -12,7 +12,7 @@ import (
 // reads; one clone is taken from a lagging subscriber in the middle of the stream.
 func runLag(seed int64, run int, timeout time.Duration) ([]Line, bool, error) {
 	rng := rand.New(rand.NewSource(seed*7919 + int64(run)))
-	total, backlog, nPub := 60+rng.Intn(60), 5+rng.Intn(20), 1+rng.Intn(2)
+	total, backlog, nPub := 30+rng.Intn(30), 4+rng.Intn(10), 1+rng.Intn(2)
 	s := newSession(timeout)
 	rec := startRecording()
 	pending := map[int]chan string{}
